@@ -8,8 +8,10 @@ from .c19 import replay  # noqa: F401
 def run(R, tier, seed):
     R.trusted += ["rustc nightly MIR dump of the copia binary crate", "mirsmt encoder + std models (validated in concrete mode vs native)",
                   "z3 5.1 (deciding), cvc5 / z3 4.8.12 (re-deciding)"]
-    R.assumptions += ["ASSUMED, not decided: after a successful run the destination's (size, whole-second mtime) equals the source's "
-                      "(SystemTime, `touch -d @`, `find -printf %T@` round trip) — kernel/coreutils behaviour",
+    R.assumptions += ["ASSUMED, not decided: the kernel stores the mtime it is given and returns it (a file is a cell), `touch -d @` / `find -printf %T@` "
+                      "on the remote side, and that the delivery code calls set_local_mtime with the source's mtime",
+                      "decided (local side): set_local_mtime asks the file system for exactly max(secs,0) whole seconds, exactly once, for EVERY i64 (incl. 0 and far "
+                      "future), and reports failures; mtime_secs returns the whole seconds since the epoch (0 before it / unreadable)",
                       "decided: given equal metadata the plan transfers and deletes nothing; a path is in the plan only if absent or size/mtime differ",
                       "is_excluded abstracted as an arbitrary predicate"]
     ctx = planlib.Ctx()
@@ -20,6 +22,14 @@ def run(R, tier, seed):
         ("validate-build_plan", lambda: planlib.validate_build_plan(ctx, R, seed, 10 if tier == "quick" else 60)),
         ("build_plan", lambda: planlib.build_plan_obligation(ctx, prover, "C14", 3 if tier == "quick" else 5, seed)),
     ]
+    from . import metalib
+    mctx = None
+
+    def meta_steps():
+        mc = metalib.ctx_with_meta()
+        metalib.set_mtime_obligation(mc, prover, "C14")
+        metalib.mtime_secs_obligation(mc, prover, "C14")
+    steps.append(("mtime-arithmetic", meta_steps))
     for name, f in steps:
         try:
             f()
